@@ -37,7 +37,7 @@ func consumerOfGo(P *Prog, g *ssa.Go) (*ssa.Function, []ssa.Value) {
 }
 
 func checkC10(c *Ctx) {
-	c.Explanation = "Decides the structure that makes rtcmfilter's output exactly the valid frames of its input: (R1/R2) the writer attached to standard output and to the record file is the filtering consumer: it writes every received message whose type is not the non-RTCM sentinel, once, synchronously, and what it writes is the message's RawData unmodified; it skips nothing else and stops only on a closed channel or a failed write; (R3) wiring: exactly one consumer goroutine is given the program's output writer and it is the filtering consumer; the record consumer is the same function on the daily record writer, started iff RecordMessages; the readable log consumer writes one entry per message and is started iff DisplayMessages; every consumer's channel is in the fan-out list handed to the pipeline; (R4) composition with the framing properties: typed messages are exactly CRC-valid complete frames (C01 rules), every valid frame is recognised with exactly its own bytes (C03 rules), the reader stage forwards every byte it reads exactly once for every chunking of the input (C09-R8 rule), the pipeline delivers all of them in order to every consumer (C09 fan-out rules); (R5) every consumer goroutine is joined — its channel closed and its completion awaited — before the entry point returns, so nothing is missing at exit (C11 join rule applied to all consumers)."
+	c.Explanation = "Decides the structure that makes rtcmfilter's output exactly the valid frames of its input: (R1/R2) the writer attached to standard output and to the record file is the filtering consumer: it writes every received message whose type is not the non-RTCM sentinel, once, synchronously, and what it writes is the message's RawData unmodified; it skips nothing else and stops only on a closed channel or a failed write; (R3) wiring: exactly one consumer goroutine is given the program's output writer and it is the filtering consumer; the record consumer is the same function on the daily record writer, started iff RecordMessages; the readable log consumer writes one entry per message and is started iff DisplayMessages; every consumer's channel is in the fan-out list handed to the pipeline; (R4) composition with the framing properties: typed messages are exactly CRC-valid complete frames (C01 rules), every valid frame is recognised with exactly its own bytes (C03 rules), the reader stage forwards every byte it reads exactly once for every chunking of the input (C09-R8 rule), the pipeline delivers all of them in order to every consumer (C09 fan-out rules); (R5) every consumer goroutine is joined — its channel closed and its completion awaited — before the entry point returns, so nothing is missing at exit (C11 join rule applied to all consumers). R4 also contains the no-panic obligations of the stream handler (C07 engine)."
 	c.NotDecided = "dailylogger's file handling; what happens after a short or failed write (the writer stops by design); the CRC arithmetic (dependency pin, C01)."
 	P := c.P
 	pkg := "apps/rtcmfilter"
@@ -168,6 +168,14 @@ func checkC10(c *Ctx) {
 		} else {
 			c.Fail("C10-R4", "Handle:read", f.pl.handle.Pos(), "unresolved", "the read call of Handle was not found")
 		}
+	}
+	// the stream handler cannot be made to abort by any input: the no-panic obligations (C07 engine)
+	// of everything reachable from it
+	if hm := c.P.Func("rtcm/handler", "(*Handler).HandleMessages"); hm != nil {
+		runBounds(c, "C10-R4-R3", []*ssa.Function{hm})
+		c.MinInstances("C10-R4-R3", 50)
+	} else {
+		c.Unresolved("C10-R4-R3", "rtcm/handler.(*Handler).HandleMessages")
 	}
 	// ---- R5 joins
 	n := ruleJoinAll(c, "C10-R5", F, nil, pkg)
